@@ -37,7 +37,7 @@ fn wide_program(records: u16, width: u8, packets: u8, seed: u64) -> Program {
     let n = (cap * packets.max(1) as usize + 3).min(3_000_000 / proto.len()) as u32;
     Program {
         guid: "{c12wide}".into(),
-        ops: vec![Op::Ext { prefix: "wd".into(), url: "urn:verif:wide".into() }, Op::Cloud(CloudSpec { guid: "{c}".into(), proto, n, seed, nan_ok: true, meta: CloudMeta::default(), finalize: true, clear_limits: 0 })],
+        ops: vec![Op::Ext { prefix: "wd".into(), url: "urn:verif:wide".into() }, Op::Cloud(CloudSpec { guid: "{c}".into(), proto, n, seed, nan_ok: true, meta: CloudMeta::default(), finalize: true, clear_limits: 0, rejects: vec![] })],
         end: End::Finalize,
     }
 }
@@ -299,7 +299,7 @@ impl Check for C12 {
                 }
                 let p = Program {
                     guid: "{c12w}".into(),
-                    ops: vec![Op::Cloud(CloudSpec { guid: "{c}".into(), proto, n: *n, seed: *seed, nan_ok: true, meta: CloudMeta::default(), finalize: true, clear_limits: 0 })],
+                    ops: vec![Op::Cloud(CloudSpec { guid: "{c}".into(), proto, n: *n, seed: *seed, nan_ok: true, meta: CloudMeta::default(), finalize: true, clear_limits: 0, rejects: vec![] })],
                     end: End::Finalize,
                 };
                 run_program(&p, &mut v);
